@@ -4,6 +4,7 @@ Import ListNotations.
 Require Import PPLV.gen.Facts_COTree PPLV.Rows.COTree PPLV.Rows.COTreeSpec.
 Require Import PPLV.Rows.Abs PPLV.Rows.Dense PPLV.Rows.Sparse PPLV.Rows.Expr PPLV.Rows.RowsFacts.
 Require PPLV.Rows.DenseProofs PPLV.Rows.SparseProofs PPLV.Rows.ExprProofs.
+Require PPLV.Rows.COTreeBase PPLV.Rows.COTreeSearch PPLV.Rows.COTreeStatic PPLV.Rows.COTreeHint PPLV.Rows.COTreeDens.
 
 (* unstored entries of a sparse row read as zero *)
 Theorem unstored_reads_zero : forall s i, s_mem i (sents s) = false -> s_get i s = 0%Z.
@@ -56,6 +57,78 @@ Proof.
   - repeat constructor; cbn; auto.
   - repeat constructor; cbn; discriminate.
   - reflexivity.
+Qed.
+
+(* ---- the tree: searches, for ANY valid hint (stale or far away), find the map-level answer ---- *)
+Local Open Scope N_scope.
+(* every hint the histories use is valid (end() or a used slot) *)
+Theorem resolve_hint_valid : forall t raw, COTreeSearch.valid_hint t (resolve_hint t raw).
+Proof. exact COTreeSearch.resolve_hint_valid. Qed.
+(* go_down_searching_key from the root ends on the key, or on its in-order neighbour with the free child *)
+Theorem go_down_spec : forall t key, inv t -> 0 < t_size t ->
+  COTreeSearch.gd_post (t_arr t) (t_rsz t) key (root_search t key).
+Proof. exact COTreeSearch.go_down_spec. Qed.
+(* bisect_near / bisect_in from any valid hint end on the key or on a neighbour of it *)
+Theorem bisect_near_spec : forall t h key, inv t -> 0 < t_size t -> COTreeSearch.valid_hint t h ->
+  COTreeSearch.near_pos (t_arr t) key (bisect_near t h key).
+Proof. exact COTreeSearch.bisect_near_spec. Qed.
+(* Sparse_Row::lower_bound(hint, i) / find(hint, i) do not depend on the hint ... *)
+Theorem lower_bound_hint_irrelevant : forall t h1 h2 i, inv t ->
+  COTreeSearch.valid_hint t h1 -> COTreeSearch.valid_hint t h2 -> lower_bound_near t h1 i = lower_bound_near t h2 i.
+Proof. exact COTreeSearch.lower_bound_hint_irrelevant. Qed.
+Theorem find_hint_irrelevant : forall t h1 h2 i, inv t ->
+  COTreeSearch.valid_hint t h1 -> COTreeSearch.valid_hint t h2 -> find_near t h1 i = find_near t h2 i.
+Proof. exact COTreeSearch.find_hint_irrelevant. Qed.
+(* ... and are the map's lower bound / lookup; unstored keys read as zero *)
+Theorem lower_bound_refines : forall t i, inv t ->
+  m_lower_bound i (abs_tree t) = (if lower_bound t i =? t_end t then None else aget (t_arr t) (lower_bound t i)).
+Proof. exact COTreeSearch.lower_bound_refines. Qed.
+Theorem get_refines : forall t i, inv t ->
+  get t i = match m_find i (abs_tree t) with Some v => v | None => 0%Z end.
+Proof. exact COTreeSearch.get_refines. Qed.
+(* the hinted insertion IS the plain insertion, whatever the hint: same tree, same returned iterator *)
+Theorem insert_hint_eq : forall t h k d, inv t -> COTreeSearch.valid_hint t h ->
+  insert_hint t h k d = match d with Some v => insert t k v | None => insert_key t k end.
+Proof. exact COTreeHint.insert_hint_eq. Qed.
+Theorem hint_irrelevant : forall t raw1 raw2 k d, inv t ->
+  insert_hint t (resolve_hint t raw1) k d = insert_hint t (resolve_hint t raw2) k d.
+Proof. exact COTreeHint.insert_hint_irrelevant. Qed.
+
+(* ---- non-rebalancing updates and rebuilds refine the map and keep the invariant ---- *)
+Theorem increase_keys_from_refines : forall t key n, inv t ->
+  abs_tree (increase_keys_from t key n) = m_shift_up key n (abs_tree t) /\ inv (increase_keys_from t key n).
+Proof. intros t key n H. split; [apply COTreeStatic.increase_keys_from_abs|apply COTreeStatic.increase_keys_from_inv]; exact H. Qed.
+Theorem rebuild_bigger_refines : forall t, inv t -> 0 < t_size t ->
+  abs_tree (rebuild_bigger t) = abs_tree t /\ inv (rebuild_bigger t).
+Proof. intros t H H0. split; [apply COTreeStatic.rebuild_bigger_abs|apply COTreeStatic.rebuild_bigger_inv; assumption]. Qed.
+Theorem rebuild_smaller_refines : forall t d, inv t -> 0 < t_size t -> 1 <= d ->
+  t_rsz t = 2 ^ N.succ (N.succ d) - 1 -> t_size t <= 2 ^ N.succ d - 1 ->
+  inv (rebuild_smaller t) /\ abs_tree (rebuild_smaller t) = abs_tree t.
+Proof. exact COTreeStatic.rebuild_smaller_inv. Qed.
+(* the iterator constructor CO_Tree(Iterator, n) (used by Sparse_Row copies and the bulk linear_combine) *)
+Theorem of_list_refines : forall l, sorted l -> abs_tree (of_list l) = l /\ inv (of_list l).
+Proof. intros l H. split; [apply COTreeStatic.of_list_abs|apply COTreeStatic.of_list_inv, H]. Qed.
+
+(* ---- densities: what CO_Tree::OK() adds to structure_OK(), preserved by every update
+   (szinv2 follows from inv: COTreeDens.inv_szinv2) ---- *)
+Theorem insert_dens : forall t k v, inv t -> dens t -> dens (fst (insert t k v)).
+Proof. intros t k v Hi Hd. apply COTreeDens.insert_dens; [apply COTreeDens.szinv2_szinv, COTreeDens.inv_szinv2, Hi|exact Hd]. Qed.
+Theorem insert_hint_dens : forall t h k d, inv t -> dens t -> dens (fst (insert_hint t h k d)).
+Proof. intros t h k d Hi Hd. apply COTreeDens.insert_hint_dens; [apply COTreeDens.szinv2_szinv, COTreeDens.inv_szinv2, Hi|exact Hd]. Qed.
+Theorem erase_key_dens : forall t k, inv t -> dens t -> dens (fst (erase_key t k)).
+Proof. intros t k Hi Hd. apply COTreeDens.erase_key_dens; [apply COTreeDens.inv_szinv2, Hi|exact Hd]. Qed.
+Theorem erase_shift_dens : forall t k, inv t -> dens t -> dens (erase_element_and_shift_left t k).
+Proof. intros t k Hi Hd. apply COTreeDens.erase_shift_dens; [apply COTreeDens.inv_szinv2, Hi|exact Hd]. Qed.
+Local Close Scope N_scope.
+
+(* the hypotheses `inv t`, `0 < t_size t`, `dens t` are satisfiable (and hold initially) *)
+Example inv_hyp_sat :
+  inv empty_tree /\ dens empty_tree /\
+  let t := of_list [(1%N, 2%Z); (5%N, 3%Z); (9%N, (-4)%Z)] in inv t /\ (0 < t_size t)%N /\ dens t.
+Proof.
+  split; [exact COTreeStatic.inv_empty_tree|]. split; [left; reflexivity|]. cbv zeta. split.
+  - apply COTreeStatic.of_list_inv. repeat constructor; cbn; reflexivity.
+  - split; [vm_compute; reflexivity|]. right. split; [right|left]; vm_compute; reflexivity.
 Qed.
 
 (* ---- full statements (stated; see the theorems above/below for the parts that are proved) ---- *)
